@@ -625,6 +625,31 @@ def _eval_lg(cell):
                                  "ML() called after MAP() on the same problem object, %s: %s" % (
                                      _cfgstr(cfg), "; ".join(kinds3[q] for q in KIND_ORDER if q in kinds3)),
                                  focus={"size": list(size), "config": cfg}, **(obs3 or {}))
+            # ---- history: compute_cov(), then the prior's matrix is re-assigned on the same object, then MAP():
+            #      the estimate is the closed form for the NEW prior (or the call fails) - never the old answer
+            if precov and mean == "zerovec" and cfg["pp"] != "cov":
+                cfg4 = dict(cfg)
+                prep4 = _prepare(size, k, cfg4)
+                bad4, P4, G4, z4 = prep4
+                if not bad4:
+                    pa2, Cx2 = _spec(cell["n"], cfg["pp"], cfg["ps"], (k + 1) % 3, "pri")
+                    try:
+                        setattr(P4.BP.prior, cfg["pp"], pa2)
+                        assigned = True
+                    except Exception:
+                        assigned = False
+                    if assigned:
+                        P4.Cx = Cx2
+                        st4, kinds4, obs4 = _op_estimate(size, k, cfg4, "MAP", prep=(None, P4, G4, z4))
+                        res.transitions += 1
+                        res.outcomes.add("MAP-after-reassign:" + st4 + (":" + "+".join(sorted(kinds4)) if kinds4 else ""))
+                        if st4.startswith("judged"):
+                            res.evaluations += 1
+                            if kinds4:
+                                res.fail("C15|BayesianProblem.MAP|%s-%s|after-reassigning-%s" % (_oplabel(st4), _primary(kinds4), cfg["pp"]),
+                                         "MAP() after compute_cov() and re-assigning the prior's %s on the same object, %s: %s" % (
+                                             cfg["pp"], _cfgstr(cfg), "; ".join(kinds4[q] for q in KIND_ORDER if q in kinds4)),
+                                         focus={"size": list(size), "config": cfg}, **(obs4 or {}))
             # ---- direct sampling
             st, kinds, obs = _op_sample(size, k, cfg, prep=prep)
             res.transitions += 1
